@@ -53,6 +53,32 @@ def hist_stream(c, tier, seed, extra_args=None, n=None, corpus=True):
                 timed_out=any(r["timed_out"] for r in rs))
 
 
+# canonical case of the family F2 (docs/C05.md): the TEXT of an emitted getpath/setpath/delpaths error drifts when
+# the iterator is advanced after the error, because the error previews the update accumulator lazily
+ERRTEXT_CANON = ('c05 alias=0 vars=[3,1,2] input={"a":{"b":0},"c":0} '
+                 'program=(.c, .a, .a.b) |= (if type == "number" then empty else 1 end)')
+
+
+def report_history_violations(c, viols):
+    """failing inputs of the history observer; members of family F2 are represented by its canonical case when
+    the canonical case itself showed in this run (same root cause), otherwise they are reported one by one"""
+    fam = [(case, what) for case, what in viols if what.startswith("errtext:")]
+    rest = [(case, what) for case, what in viols if not what.startswith("errtext:")]
+    canon = [(case, what) for case, what in fam if case == ERRTEXT_CANON]
+    if canon:
+        c.failing_input("the message of an emitted getpath/setpath/delpaths error changes when the iterator is "
+                        "advanced after the error (it previews the update accumulator lazily); no JSON value changes",
+                        ERRTEXT_CANON, canon[0][1])
+        others = sorted(set(case for case, _ in fam if re.sub(r"alias=\d", "alias=0", case) != ERRTEXT_CANON))
+        if others:
+            c.notes.append("%d further histories show only the same error-text drift (family F2), e.g. %s"
+                           % (len(others), others[0][:300]))
+    else:
+        rest = fam + rest
+    for case, what in rest[:10]:
+        c.failing_input(what.split(":")[0], case, what)
+
+
 def nprobes():
     try:
         txt = open(os.path.join(V.ROOT, "harness", "c56", "gen.go")).read()
@@ -120,8 +146,7 @@ def run(tier, seed):
         c.broken_correspondence("hist", None, "history observer failed: " + bg.get("error", "?"))
         return c.finish("none")
     h, h2 = bg["h"], bg["h2"]
-    for case, what in h["viols"][:10]:
-        c.failing_input(what.split(":")[0], case, what)
+    report_history_violations(c, h["viols"])
     if h["timed_out"]:
         c.broken_correspondence("hist", None, "history stream timed out")
     for k, rc, tail in h["crashes"][:3]:
@@ -153,8 +178,7 @@ def run(tier, seed):
         except Exception as e:
             c.notes.append("site diff failed: %r" % e)
         h3 = hist_stream(c, tier, seed + 1000, n=8000)
-        for case, what in h3["viols"][:10]:
-            c.failing_input(what.split(":")[0], case, what)
+        report_history_violations(c, h3["viols"])
     rule = ("histories (run on aliased input; same object again; equal fresh copy; two live iterators interleaved "
             "with another input; again) x 3 aliasing modes (plain / hidden capacity / shared sub-containers and "
             "overlapping slices) x programs: %d hand-written sharing probes x inputs, random programs from the "
